@@ -224,7 +224,7 @@ func modelSortLess(viaInterface bool, stable bool) func(x *Exec, st *State, fr *
 		inr := func(v *Term) *Term { return And(Cmp(">=", v, IntLit(0)), Cmp("<", v, n)) }
 		oldRow := Select(h, SlArr(s))
 		pi := App(perm, SInt, i)
-		st.assume(Forall([]*Term{i}, Implies(inr(i), And(inr(pi), Eq(App(inv, SInt, pi), i), Eq(Select(row, Sidx(SlOff(s), i)), Select(oldRow, Sidx(SlOff(s), pi))))), []*Term{pi}))
+		st.assume(Forall([]*Term{i}, Implies(inr(i), And(inr(pi), Eq(App(inv, SInt, pi), i), Eq(Select(row, Sidx(SlOff(s), i)), Select(oldRow, Sidx(SlOff(s), pi))))), []*Term{pi}, []*Term{Select(row, Sidx(SlOff(s), i))}))
 		ii := App(inv, SInt, i)
 		st.assume(Forall([]*Term{i}, Implies(inr(i), And(inr(ii), Eq(App(perm, SInt, ii), i))), []*Term{ii}))
 		k := Var("sk", SInt)
